@@ -279,6 +279,94 @@ Qed.
 Lemma trailer_length hs (H : bytes -> bytes) (skip : bool) body : List.length (if skip then zeros hs else fit hs (H body)) = hs.
 Proof. destruct skip; [apply zeros_length|apply fit_length]. Qed.
 
+(* do_read_index with the mapping (sizes, checksum, EOIE) and the parsed stream separated *)
+Definition git_decode' (hs : nat) (H : bytes -> bytes) (m : gmode) (all b : bytes) : gres gindex :=
+  let n := List.length all in
+  if (n <? 12 + hs)%nat then GErr GTooSmall else
+  match take 4 b with None => GErr GTooSmall | Some (sig, b1) =>
+  if negb (bytes_eqb sig gDIRC) then GErr GBadSignature else
+  match get_u32 b1 with None => GErr GTooSmall | Some (ver, b2) =>
+  if (ver <? 2) || (4 <? ver) then GErr GBadVersion else
+  if gm_verify m && negb (gm_null_ok m && g_is_zero (skipn (n - hs) all)) &&
+     negb (bytes_eqb (H (firstn (n - hs) all)) (skipn (n - hs) all)) then GErr GBadChecksum else
+  match get_u32 b2 with None => GErr GTooSmall | Some (count, b3) =>
+  match g_load_entries hs (S (List.length b3)) ver count None b3 [] with
+  | GErr e => GErr e
+  | GOk (es, b4) =>
+    let off := if gm_threads m then g_read_eoie hs H all else 0 in
+    let start := if off =? 0 then b4 else skipn (N.to_nat off) all in
+    if negb (off =? 0) && g_has_ieot hs (S n) start then GErr GUnspec else
+    match g_load_extensions hs (S (List.length start)) start (mkGI ver es None None None None false) with
+    | GErr e => GErr e
+    | GOk g =>
+      if gm_verify m then match g_check_order es with Some e => GErr e | None => GOk g end else GOk g
+    end
+  end end end end.
+
+Lemma git_decode_eq hs H m b : git_decode hs H m b = git_decode' hs H m b b.
+Proof. reflexivity. Qed.
+
+(* do_read_index on go-git's output, with or without fsck's verifications *)
+Lemma git_reads_ours_gen hs H skip v null_ok ver entries :
+  ver = 2 \/ ver = 3 \/ ver = 4 ->
+  forallb (wf_entry hs) entries = true ->
+  N.of_nat (List.length entries) < 4294967296 ->
+  (v = true -> ((skip = false /\ forall x, List.length (H x) = hs) \/ (skip = true /\ null_ok = true)) /\
+               g_check_order (map git_of_entry (sort_entries entries)) = None) ->
+  exists file, encode hs H skip ver entries = Ok file /\
+               git_decode hs H (mkGM v null_ok false) file = GOk (git_view ver (sort_entries entries)).
+Proof.
+  intros Hver Hw Hcount Hv.
+  pose proof (sort_entries_forallb _ _ Hw) as Hws.
+  destruct (entries_git_reads hs ver Hver (sort_entries entries) None [] [] (S (List.length (sort_entries entries))) Hws I)
+    as (b & Eb & _); [lia|].
+  remember (DIRC ++ u32 (ver mod 4294967296) ++ u32 (N.of_nat (List.length entries) mod 4294967296) ++ b) as body eqn:Ebody.
+  remember (if skip then zeros hs else fit hs (H body)) as trailer eqn:Etr.
+  assert (Htl : List.length trailer = hs) by (subst trailer; apply trailer_length).
+  destruct (entries_git_reads hs ver Hver (sort_entries entries) None trailer [] (S (List.length (b ++ trailer))) Hws I)
+    as (b' & Eb' & Rb).
+  { pose proof (entries_roundtrip hs ver Hver (sort_entries entries) None [] [] (S (List.length (sort_entries entries))) Hws I) as X.
+    destruct X as (b2 & Eb2 & _ & Lb2); [lia|]. rewrite Eb in Eb2. injection Eb2 as <-. rewrite app_length. lia. }
+  rewrite Eb in Eb'. injection Eb' as <-.
+  assert (Hvlt : ver < 4294967296) by (destruct Hver as [-> | [-> | ->]]; lia).
+  assert (H4 : (4 <? ver) = false) by (destruct Hver as [-> | [-> | ->]]; reflexivity).
+  assert (Hrange : ((ver <? 2) || (4 <? ver))%bool = false) by (destruct Hver as [-> | [-> | ->]]; reflexivity).
+  exists (body ++ trailer). split.
+  - unfold encode, encode_body. rewrite H4, Eb. rewrite <- Ebody. subst trailer. reflexivity.
+  - rewrite git_decode_eq.
+    remember (body ++ trailer) as all eqn:Eall.
+    assert (Hbl : (12 <= List.length body)%nat) by (subst body; rewrite !app_length, !u32_length; cbn; lia).
+    assert (Hal : List.length all = (List.length body + hs)%nat) by (subst all; rewrite app_length; lia).
+    assert (Estream : all = [68; 73; 82; 67] ++ u32 ver ++ u32 (N.of_nat (List.length entries)) ++ b ++ trailer).
+    { subst all body. rewrite (N.mod_small ver) by exact Hvlt. rewrite (N.mod_small _ _ Hcount).
+      repeat rewrite <- app_assoc. reflexivity. }
+    rewrite Estream at 2. unfold git_decode'.
+    replace (List.length all <? 12 + hs)%nat with false by (symmetry; apply Nat.ltb_ge; lia).
+    rewrite (take_app_n 4) by reflexivity. change (bytes_eqb [68; 73; 82; 67] gDIRC) with true. cbn [negb].
+    rewrite get_u32_u32 by exact Hvlt. rewrite Hrange.
+    (* the checksum test *)
+    assert (Hsum : (gm_verify (mkGM v null_ok false) &&
+                    negb (gm_null_ok (mkGM v null_ok false) && g_is_zero (skipn (List.length all - hs) all)) &&
+                    negb (bytes_eqb (H (firstn (List.length all - hs) all)) (skipn (List.length all - hs) all)))%bool = false).
+    { cbn [gm_verify gm_null_ok]. destruct v; [|reflexivity].
+      replace (List.length all - hs)%nat with (List.length body) by lia. rewrite Eall.
+      rewrite skipn_app, Nat.sub_diag, skipn_all. cbn [skipn app].
+      rewrite firstn_app, Nat.sub_diag, firstn_all, firstn_O, app_nil_r.
+      destruct (Hv eq_refl) as [[[Hs HH] | [Hs Hn]] _].
+      - rewrite Etr, Hs.
+        assert (Hfit : fit hs (H body) = H body).
+        { unfold fit. rewrite firstn_app, HH, Nat.sub_diag, firstn_O, app_nil_r. rewrite <- (HH body) at 1. apply firstn_all. }
+        rewrite Hfit, bytes_eqb_refl. cbn [negb]. now rewrite andb_false_r.
+      - rewrite Etr, Hs, Hn. change g_is_zero with is_zero. rewrite is_zero_zeros. reflexivity. }
+    rewrite Hsum. cbn [gm_threads gm_verify].
+    rewrite get_u32_u32 by exact Hcount.
+    rewrite sort_entries_length in Rb. rewrite Rb. cbn [rev app N.eqb negb andb].
+    cbn [g_load_extensions].
+    replace (List.length trailer <? 8 + hs)%nat with true by (symmetry; apply Nat.ltb_lt; lia).
+    destruct v; [|reflexivity].
+    destruct (Hv eq_refl) as [_ Ho]. unfold git_view. rewrite Ho. reflexivity.
+Qed.
+
 (* git's normal read (no checksum verification, extensions in file order) *)
 Theorem git_reads_ours hs H skip null_ok ver entries :
   ver = 2 \/ ver = 3 \/ ver = 4 ->
@@ -286,36 +374,95 @@ Theorem git_reads_ours hs H skip null_ok ver entries :
   N.of_nat (List.length entries) < 4294967296 ->
   exists file, encode hs H skip ver entries = Ok file /\
                git_decode hs H (mkGM false null_ok false) file = GOk (git_view ver (sort_entries entries)).
+Proof. intros Hver Hw Hcount. apply git_reads_ours_gen; try assumption. discriminate. Qed.
+
+(* ---- check_ce_order on sorted entries ---- *)
+Lemma bytes_eqb_sym : forall a b, bytes_eqb a b = bytes_eqb b a.
+Proof. induction a as [|x a IH]; intros [|y b]; cbn; try reflexivity. now rewrite IH, N.eqb_sym. Qed.
+
+Lemma bytes_eqb_ltb : forall a b, bytes_eqb a b = true -> bytes_ltb a b = false.
 Proof.
-  intros Hver Hw Hcount.
-  pose proof (sort_entries_forallb _ _ Hw) as Hws.
-  set (trailer0 := fun body => if skip then zeros hs else fit hs (H body)).
-  destruct (entries_git_reads hs ver Hver (sort_entries entries) None [] [] (S (List.length (sort_entries entries))) Hws I)
-    as (b & Eb & _); [lia|].
-  set (body := DIRC ++ u32 (ver mod 4294967296) ++ u32 (N.of_nat (List.length entries) mod 4294967296) ++ b).
-  set (trailer := trailer0 body).
-  assert (Htl : List.length trailer = hs) by apply trailer_length.
-  destruct (entries_git_reads hs ver Hver (sort_entries entries) None trailer [] (S (List.length (b ++ trailer))) Hws I)
-    as (b' & Eb' & Rb).
-  { pose proof (entries_roundtrip hs ver Hver (sort_entries entries) None [] [] (S (List.length (sort_entries entries))) Hws I) as X.
-    destruct X as (b2 & Eb2 & _ & Lb2); [lia|]. rewrite Eb in Eb2. injection Eb2 as <-. rewrite app_length. lia. }
-  rewrite Eb in Eb'. injection Eb' as <-.
-  assert (Hv : ver < 4294967296) by (destruct Hver as [-> | [-> | ->]]; lia).
-  assert (H4 : (4 <? ver) = false) by (destruct Hver as [-> | [-> | ->]]; reflexivity).
-  assert (Hrange : ((ver <? 2) || (4 <? ver))%bool = false) by (destruct Hver as [-> | [-> | ->]]; reflexivity).
-  exists (body ++ trailer). split.
-  - unfold encode, encode_body. rewrite H4, Eb. reflexivity.
-  - unfold git_decode.
-    assert (Hlen : (List.length (body ++ trailer) <? 12 + hs)%nat = false).
-    { apply Nat.ltb_ge. unfold body. rewrite !app_length, !u32_length, Htl. cbn. lia. }
-    rewrite Hlen. unfold body at 1. repeat rewrite <- app_assoc.
-    change (DIRC ++ ?x) with ([68; 73; 82; 67] ++ x).
-    rewrite (take_app_n 4) by reflexivity. change (bytes_eqb [68; 73; 82; 67] gDIRC) with true. cbn [negb].
-    rewrite N.mod_small by exact Hv. rewrite get_u32_u32 by exact Hv. rewrite Hrange.
-    cbn [gm_verify gm_threads andb].
-    rewrite N.mod_small by exact Hcount. rewrite get_u32_u32 by exact Hcount.
-    rewrite sort_entries_length in Rb. rewrite Rb. cbn [rev app N.eqb negb andb].
-    cbn [g_load_extensions].
-    replace (List.length trailer <? 8 + hs)%nat with true by (symmetry; apply Nat.ltb_lt; lia).
-    reflexivity.
+  induction a as [|x a IH]; intros [|y b]; cbn; try discriminate; try reflexivity.
+  intros E. apply andb_true_iff in E as [Exy E]. apply N.eqb_eq in Exy. subst y.
+  rewrite N.ltb_irrefl. now apply IH.
+Qed.
+
+Lemma bytes_ltb_asym : forall a b, bytes_ltb a b = true -> bytes_ltb b a = false.
+Proof.
+  induction a as [|x a IH]; intros [|y b]; cbn; try discriminate; try reflexivity.
+  destruct (x <? y) eqn:E1; destruct (y <? x) eqn:E2; try reflexivity; try discriminate.
+  - apply N.ltb_lt in E1, E2. lia.
+  - apply IH.
+Qed.
+
+Lemma entry_less_asym x y : entry_less y x = true -> entry_less x y = false.
+Proof.
+  unfold entry_less. rewrite (bytes_eqb_sym (e_name x) (e_name y)).
+  destruct (bytes_eqb (e_name y) (e_name x)).
+  - intros E. apply N.ltb_lt in E. apply N.ltb_ge. lia.
+  - apply bytes_ltb_asym.
+Qed.
+
+(* no entry is smaller than its predecessor *)
+Fixpoint adj_ok (l : list entry) : bool :=
+  match l with
+  | a :: ((b :: _) as r) => negb (entry_less b a) && adj_ok r
+  | _ => true
+  end.
+
+Lemma insert_adj x : forall l, adj_ok l = true -> adj_ok (insert_entry x l) = true.
+Proof.
+  induction l as [|y l IH]; intros Hl; [reflexivity|].
+  cbn [insert_entry]. destruct (entry_less y x) eqn:E.
+  - destruct l as [|z l'].
+    + cbn [insert_entry adj_ok]. rewrite (entry_less_asym _ _ E). reflexivity.
+    + cbn [adj_ok] in Hl. apply andb_true_iff in Hl as [Hzy Hl].
+      specialize (IH Hl). cbn [insert_entry] in *. destruct (entry_less z x) eqn:E'.
+      * cbn [adj_ok] in *. now rewrite Hzy, IH.
+      * cbn [adj_ok] in *. rewrite (entry_less_asym _ _ E). cbn [negb andb]. exact IH.
+  - cbn [adj_ok]. rewrite E. cbn [negb andb]. exact Hl.
+Qed.
+
+Lemma sort_adj l : adj_ok (sort_entries l) = true.
+Proof. unfold sort_entries. induction l as [|x l IH]; [reflexivity|]. cbn [fold_right]. now apply insert_adj. Qed.
+
+(* a merged entry (stage 0) is the only entry of its name *)
+Fixpoint no_merged_dup (l : list entry) : bool :=
+  match l with
+  | a :: ((b :: _) as r) => negb (bytes_eqb (e_name a) (e_name b) && (e_stage a =? 0)) && no_merged_dup r
+  | _ => true
+  end.
+
+Lemma check_order_ok : forall l, adj_ok l = true -> no_merged_dup l = true -> g_check_order (map git_of_entry l) = None.
+Proof.
+  induction l as [|a l IH]; intros Ha Hm; [reflexivity|].
+  destruct l as [|b l']; [reflexivity|].
+  cbn [adj_ok no_merged_dup] in Ha, Hm.
+  apply andb_true_iff in Ha as [Hab Ha]. apply andb_true_iff in Hm as [Hmab Hm].
+  apply negb_true_iff in Hab, Hmab.
+  change (map git_of_entry (a :: b :: l')) with (git_of_entry a :: git_of_entry b :: map git_of_entry l').
+  cbn [g_check_order]. change (ge_name (git_of_entry a)) with (e_name a). change (ge_name (git_of_entry b)) with (e_name b).
+  change (ge_stage (git_of_entry a)) with (e_stage a). change (ge_stage (git_of_entry b)) with (e_stage b).
+  unfold entry_less in Hab. rewrite (bytes_eqb_sym (e_name b) (e_name a)) in Hab.
+  destruct (bytes_eqb (e_name a) (e_name b)) eqn:E.
+  - rewrite (bytes_eqb_sym (e_name a) (e_name b)) in E. rewrite (bytes_eqb_ltb _ _ E).
+    cbn [andb] in Hmab. rewrite Hmab, Hab. apply (IH Ha Hm).
+  - rewrite Hab. apply (IH Ha Hm).
+Qed.
+
+(* git fsck's read: the trailer is verified and check_ce_order runs *)
+Theorem git_fsck_reads_ours hs H skip null_ok ver entries :
+  (forall x, List.length (H x) = hs) ->
+  ver = 2 \/ ver = 3 \/ ver = 4 ->
+  forallb (wf_entry hs) entries = true ->
+  N.of_nat (List.length entries) < 4294967296 ->
+  no_merged_dup (sort_entries entries) = true ->
+  skip = false \/ null_ok = true ->
+  exists file, encode hs H skip ver entries = Ok file /\
+               git_decode hs H (mkGM true null_ok false) file = GOk (git_view ver (sort_entries entries)).
+Proof.
+  intros HH Hver Hw Hcount Hm Hs. apply git_reads_ours_gen; try assumption.
+  intros _. split.
+  - destruct skip; [right|left]; split; auto. destruct Hs; [discriminate|assumption].
+  - apply check_order_ok; [apply sort_adj|exact Hm].
 Qed.
